@@ -71,7 +71,7 @@ func (e *env) runCopyTable(ts TableSpec, idx int) {
 					c.Outcome("copy:info-entry-with-user-key-equal-to-end-not-copied")
 					c.Note("info_end_key_not_copied_example", fmt.Sprintf("%s: %s", cs, res.endKeyMissed))
 				}
-				if k++; (idx*31+k)%30011 == 0 {
+				if k++; e.sample && k == 41 {
 					c.Sample(map[string]any{"case": cs.String(), "output": res.out})
 				}
 			}
